@@ -4,7 +4,7 @@ Tie: every `score mate N` of the real engine on positions with short forced mate
 an untrusted solver (harness) produces a strategy tree or a refutation tree and the proven checkers in the compiled Lean
 driver verify it; mate-in-one positions must give `mate 1` and a mating move at every completed depth."""
 import os, concurrent.futures as cf
-import vlib, uci, chessgen
+import vlib, uci, chessgen, xlate
 
 SOLVE_BUDGET = 300000
 
@@ -36,6 +36,139 @@ def sparse_endgames(rng, n):
     return out
 
 
+# ---- roots that drive the search into its guarded pruning sites (late-move pruning / futility, null move) -------------------------
+def threat_positions(rng, n):
+    """defender (to move): king behind a partial pawn shelter, one to three pieces, pawns; attacker: king + pieces aimed at the squares
+    around the defender's king.  Candidates for "almost every move is mated, one quiet move saves"."""
+    out = []
+    for _ in range(n):
+        white = rng.random() < 0.5
+        board = [None] * 64
+        sk, ok = ("K", "k") if white else ("k", "K")
+        ky = rng.choice([0, 0, 0, 1]) if white else rng.choice([7, 7, 7, 6])
+        kx = rng.randrange(8)
+        board[ky * 8 + kx] = sk
+        fwd = 1 if white else -1
+        for dx in (-1, 0, 1):
+            x, y = kx + dx, ky + fwd
+            if 0 <= x < 8 and 1 <= y <= 6 and rng.random() < 0.6: board[y * 8 + x] = "P" if white else "p"
+        for _ in range(rng.randrange(1, 4)):
+            sq = rng.randrange(64)
+            if board[sq] is None: board[sq] = (rng.choice("NBRNBQ") if white else rng.choice("nbrnbq"))
+        for _ in range(rng.randrange(0, 3)):
+            sq = rng.randrange(8, 56)
+            if board[sq] is None: board[sq] = "P" if white else "p"
+        esc = [y * 8 + x for x in range(max(0, kx - 1), min(8, kx + 2)) for y in range(max(0, ky - 1), min(8, ky + 2))]
+        chessgen._cover(rng, board, not white, esc, rng.randrange(2, 5))
+        for _ in range(30):
+            sq = rng.randrange(64)
+            if board[sq] is None: board[sq] = ok; break
+        for _ in range(rng.randrange(0, 3)):
+            sq = rng.randrange(8, 56)
+            if board[sq] is None: board[sq] = "p" if white else "P"
+        out.append(chessgen.board_to_fen(board, white, "-", "-", 0, 30))
+    return out
+
+
+def zug_positions(rng, n):
+    """attacker (to move): king + one or two pieces close to a defending king on the edge, pawns blocked by enemy pawns (so that the
+    null move is allowed but a tempo move may be missing).  Candidates for "passing would mate faster than any move"."""
+    out = []
+    for _ in range(n):
+        white = rng.random() < 0.5
+        board = [None] * 64
+        sk, ok = ("K", "k") if white else ("k", "K")
+        ex, ey = rng.choice([(0, 0), (7, 0), (0, 7), (7, 7), (rng.randrange(8), rng.choice([0, 7])), (rng.choice([0, 7]), rng.randrange(8))])
+        board[ey * 8 + ex] = ok
+        def near(d):
+            for _ in range(20):
+                x, y = ex + rng.randrange(-d, d + 1), ey + rng.randrange(-d, d + 1)
+                if 0 <= x < 8 and 0 <= y < 8 and board[y * 8 + x] is None: return y * 8 + x
+            return None
+        sq = near(2)
+        if sq is None: continue
+        board[sq] = sk
+        for pc in rng.choice(["NN", "NN", "NB", "N", "B", "R", "Q", "BB"]):
+            sq = near(3)
+            if sq is not None: board[sq] = pc if white else pc.lower()
+        for _ in range(rng.choice([1, 1, 2])):
+            x, y = rng.randrange(8), rng.randrange(1, 6)
+            lo, hi = y * 8 + x, (y + 1) * 8 + x
+            if board[lo] is None and board[hi] is None: board[lo], board[hi] = "P", "p"
+        if rng.random() < 0.4:
+            x, y = ex, ey - (1 if white else -1)
+            if 1 <= y <= 6 and board[y * 8 + x] is None: board[y * 8 + x] = "P" if white else "p"
+        out.append(chessgen.board_to_fen(board, white, "-", "-", 0, 40))
+    return out
+
+
+def guarded_site_sessions(ctx, vh, quick):
+    """Engine sessions whose interior nodes sit in the situations the pruning guards of negaScout exist for (Bridge/SearchGuards):
+    (a) *late quiet escape*: the side to move has a piece and a pawn (late-move pruning allowed), is mated within one move after almost
+        every move, and its one or two saving moves are quiet; searched from predecessors at depth 2..5, so that the position is a
+        zero-window node of depth 1..4 — where late-move pruning / futility skip late quiet moves;
+    (b) *zugzwang*: after a pass the opponent would be mated within 1..2 moves whatever it plays, and the side to move has a piece and a
+        pawn (null move allowed); preferred when it has no equally fast mate itself; searched from predecessors at depth 6..9, partly
+        after a search that leaves the passed position in the hash table.
+    The selection uses the untrusted solver of the harness; what is judged is only what the real search then claims (audit_interior)."""
+    r = ctx.rng
+    def valid(c):
+        fo = vlib.run_lines(vh, [f"chess fen {f}" for f in c])[1]
+        return list(dict.fromkeys(o[3:] for o in fo if o.startswith("ok ")))
+    def preds(fens):
+        out = vlib.run_lines(vh, [f"mate pred {f}" for f in fens])[1]
+        return [[x.strip() for x in o[5:].split("|") if x.strip()] if o.startswith("pred") else [] for o in out]
+    nets = [("material", 1), ("small", 2), ("big", 3)]
+    sessions, st = [], {"late_escape_positions": 0, "zugzwang_positions": 0, "zugzwang_without_own_mate": 0, "roots": 0}
+    # (a)
+    c = valid(threat_positions(r, 14000 if quick else 150000))
+    es = vlib.run_lines(vh, [f"mate esc 1 20000 {f}" for f in c])[1]
+    hits = []
+    for f, e in zip(c, es):
+        t = e.split()
+        if len(t) >= 6 and t[0] == "esc" and t[4] == "1" and int(t[2]) >= 5 and 1 <= int(t[3]) <= 2 and all(m.endswith("q") for m in t[6:]): hits.append(f)
+    hits = hits[:40 if quick else 600]
+    st["late_escape_positions"] = len(hits)
+    jobs = []
+    for f, ps in zip(hits, preds(hits)):
+        r.shuffle(ps)
+        for root in ps[:3] + [f]:
+            st["roots"] += 1
+            jobs += [(root, f"go depth {d}" + ("!" if r.random() < 0.7 else "")) for d in (2, 3, 4, 5)]
+    for i in range(0, len(jobs), 40): sessions.append((nets[(i // 40) % 3], {} if (i // 40) % 4 else {"Hash": 1}, jobs[i:i + 40]))
+    # (b)
+    c = valid(zug_positions(r, 30000 if quick else 400000))
+    hits, strict = [], set()
+    for m in (1, 2):
+        zs = vlib.run_lines(vh, [f"mate zug {m} 20000 {f}" for f in c])[1]
+        for f, z in zip(c, zs):
+            if z in ("zug 1 0 1", "zug 1 1 1"): hits.append(f)
+            if z == "zug 1 0 1": strict.add(f)
+    hits = list(dict.fromkeys(hits))
+    hits.sort(key=lambda f: f not in strict)          # those without an equally fast own mate first
+    hits = hits[:110 if quick else 1200]
+    st["zugzwang_positions"], st["zugzwang_without_own_mate"] = len(hits), sum(1 for f in hits if f in strict)
+    def passed(f):
+        t = f.split(); t[1] = "b" if t[1] == "w" else "w"; t[3] = "-"; t[4] = "0"; return " ".join(t)
+    pr, pq = preds(hits), preds([passed(f) for f in hits])
+    batch, nb = [], 0
+    for f, rs, qs in zip(hits, pr, pq):
+        r.shuffle(rs); r.shuffle(qs)
+        jobs = []
+        if f in strict and qs: jobs += [(qs[0], "go depth 5"), (qs[0], "go depth 7")]      # leaves the passed position in the hash table
+        for root in rs[:2 if quick else 3]:
+            st["roots"] += 1
+            jobs += [(root, f"go depth {d}") for d in r.sample([6, 7, 8, 9], 2 if quick else 3)]
+        if jobs:
+            jobs[0] = (jobs[0][0], jobs[0][1] + "!")       # each position starts from an empty hash table; several positions share an engine
+            batch += jobs
+        if len(batch) >= 36:
+            sessions.append((nets[nb % 3], {}, batch)); batch = []; nb += 1
+    if batch: sessions.append((nets[nb % 3], {}, batch))
+    ctx.cov["guarded_site_roots"] = st
+    return sessions
+
+
 CLAIM_PLIES = 5      # interior claims audited up to this distance (5 plies = mate in 3); set per tier in run()
 _claim_seq = [0]
 
@@ -65,11 +198,20 @@ def _engine_job(eng, net, opts, jobs, recs):
         eng.isready()
         for fen, go in jobs:
             eng.send("setoption name Clear Hash") if go.endswith("!") else None
+            unfinished = False
             try:
-                out = eng.go(f"position fen {fen}", go.rstrip("!"), timeout=180)
-            except (uci.EngineDied, TimeoutError) as e:
+                out = eng.go(f"position fen {fen}", go.rstrip("!"), timeout=120)
+            except uci.EngineDied as e:
                 recs.append({"fen": fen, "go": go, "opts": opts, "error": str(e)[:300]}); return recs
-            recs.append({"fen": fen, "go": go.rstrip("!"), "opts": opts, "net": net, "out": out})
+            except TimeoutError as e:
+                # a deep search that does not finish in time is not a C04 matter (C05/C06 judge answering): stop it and audit what it announced
+                out = list(getattr(e, "lines", []))
+                try:
+                    eng.send("stop"); out += eng.read_until(lambda l: l.startswith("bestmove"), 60)
+                except (uci.EngineDied, TimeoutError) as e2:
+                    recs.append({"fen": fen, "go": go, "opts": opts, "error": "no answer to stop after a search that ran over 120 s: " + str(e2)[:200]}); return recs
+                unfinished = True
+            recs.append({"fen": fen, "go": go.rstrip("!"), "opts": opts, "net": net, "out": out, "unfinished": unfinished})
         eng.quit()
     finally:
         eng.kill()
@@ -107,9 +249,13 @@ def bait_filter(fens):
 def run(ctx):
     quick = ctx.tier == "quick"
     r = ctx.rng
+    # first: Props/C04 imports Bridge/SearchGuards, which imports the guards / clamps regenerated from the CURRENT search.cpp
+    xr = xlate.regenerate(ctx, ["SearchGuards"])
     vlib.lean_obligations(ctx)
     ctx.assumptions += ["full playing strength (Strength 1000); synthetic evaluation networks",
-                        "the map from negaScout's return paths to the claim-calculus rules is by reading (DESIGN.md Appendix A)",
+                        "guards, clamps and terminal scores of negaScout / quiesce are regenerated from the source and proved to meet the side conditions of the "
+                        "claim-calculus rules (Bridge/SearchGuards); the data flow between the sites and the remaining return paths are by reading (DESIGN.md Appendix A)",
+                        "static evaluations are not mate scores (|eval| + margin <= MATE0/2): hypothesis of the razoring / futility / reverse-futility site theorems",
                         "mate claims with N > 3 outside the certified tablebase classes are not audited (counted as unverified)"]
     bdir = vlib.cxx_build("plain", ("vharness", "texel", "mknet"))
     vh = os.path.join(bdir, "vharness")
@@ -122,8 +268,10 @@ def run(ctx):
             recs = engine_job((tuple(rp.get("net", ("material", 1))), rp.get("opts", {}), [(rp["fen"], rp["go"])]))
         for x in recs: print(x.get("out", x)[-4:] if "out" in x else x)
         audit(ctx, vh, recs, set())
-        audit_interior(ctx, vh, recs, 10**9, 10**9, also=rp.get("claim"))
+        cl = rp.get("claim")       # interior claims are [kind, plies, fen]; root claims carry the `info` line (judged by audit())
+        audit_interior(ctx, vh, recs, 10**9, 10**9, also=cl if isinstance(cl, (list, tuple)) and len(cl) == 3 else None)
         ctx.count(1); ctx.distinct("a"); ctx.distinct("b")
+        xlate.report(ctx, xr)
         return
     # ---- candidate positions and classification by the (untrusted) solver
     ncand = 2500 if quick else 60000
@@ -215,6 +363,9 @@ def run(ctx):
         js = jobs_by_set[i]
         for c in range(0, len(js), 30):
             sessions.append((nets[(i + c) % len(nets)], o, js[c:c + 30]))
+    gs = guarded_site_sessions(ctx, vh, quick)
+    ctx.log(f"guarded-site roots: {ctx.cov['guarded_site_roots']} -> {sum(len(x[2]) for x in gs)} searches in {len(gs)} sessions")
+    sessions += gs
     ctx.log(f"{sum(len(s[2]) for s in sessions)} searches in {len(sessions)} sessions")
     with cf.ThreadPoolExecutor(max(2, vlib.NCPU // 2)) as ex:
         recs = [x for rs in ex.map(engine_job, sessions) for x in rs]
@@ -223,9 +374,11 @@ def run(ctx):
     audit_interior(ctx, vh, recs, 40000 if quick else 400000, 5000 if quick else 60000)
     ctx.cov["rule"] = ("positions: sparse endgames (K+Q/R/minor vs K(+piece/pawn), weak king near the edge), synthetic motifs, late positions of random games; classified by the solver into mate-in-1 / mate-in-2..3 / "
                        "no mate within 3 (all three classes searched); x depth 1..14 x {Hash 1..64, Threads 1..4, UseNullMove on/off} x 3 nets, with and without a cleared hash; every `score mate N` "
-                       "(exact or lowerbound, N>0; final exact N<0) audited by Lean-verified certificates; distinct = distinct (position, go, options)")
+                       "(exact or lowerbound, N>0; final exact N<0) audited by Lean-verified certificates; plus roots aimed at the guarded pruning sites (late quiet escapes for late-move pruning / futility, "
+                       "zugzwang positions for the null move), whose interior mate claims are audited; distinct = distinct (position, go, options)")
+    xlate.report(ctx, xr)       # a broken guard tie is reported without input unless the audits above produced a failing input
     if not quick:
-        vlib.leanchecker(ctx, ["TexelVerif.Props.C04"])
+        vlib.leanchecker(ctx, ["TexelVerif.Props.C04", "TexelVerif.Bridge.SearchGuards"])
 
 
 def audit(ctx, vh, recs, m1_jobs):
@@ -238,6 +391,7 @@ def audit(ctx, vh, recs, m1_jobs):
             ctx.violation(f"engine failed: {rec['error']}", {"kind": "engine-failure", "fen": rec["fen"], "go": rec["go"], "opts": rec["opts"]}); continue
         ctx.count(); ctx.distinct((rec["fen"], rec["go"], str(rec["opts"]), str(rec.get("net"))))
         stats["searches"] += 1
+        stats["searches_stopped_after_120s"] = stats.get("searches_stopped_after_120s", 0) + (1 if rec.get("unfinished") else 0)
         pg = [l for l in rec["out"] if "verif posguard" in l]
         if pg:
             ctx.violation(f"a search node did not restore the position during `{rec['go']}` on `{rec['fen']}`: {pg[0][:160]}",
@@ -256,7 +410,9 @@ def audit(ctx, vh, recs, m1_jobs):
         bm = uci.parse_bestmove(rec["out"][-1])
         if last is not None and last.get("score_kind") == "mate" and "bound" not in last:
             n = last["score"]
-            if n < 0:
+            if n < 0 and rec.get("unfinished"):
+                pass                 # the property speaks of losing scores of searches that completed their last iteration
+            elif n < 0:
                 claims.setdefault((rec["fen"], "lose", -n), (rec, last["raw"])); stats["negative_mate_claims"] += 1
             elif n > 0 and bm["best"] and bm["best"] != "0000":
                 post.append((rec["fen"], bm["best"], n, rec))
